@@ -186,6 +186,10 @@ func c13(c *core.Ctx) {
 			if !isSplice {
 				return
 			}
+			// a splice helper that validates its own byte parameter before it splices needs no validation at the call
+			if t2 := p.ByObj[core.Callee(info, call)]; t2 != nil && t2.Decl.Body != nil && selfValidating(p, t2, validators) {
+				return
+			}
 			var tainted ast.Expr
 			for _, a := range call.Args {
 				if isOpValue(info, a) {
@@ -446,4 +450,49 @@ func c13(c *core.Ctx) {
 			rA.Check(good, k+":write-after-success", g.Decl.Pos(), "body stored only after a successful patch", "the record body is written although the patch failed ("+why+")")
 		}
 	}
+}
+
+// selfValidating: the function passes one of its []byte parameters to a whole-value validator and every use of
+// that parameter in a splice (newLeaf / append into a node) happens only after the validator succeeded.
+func selfValidating(p *core.Prog, f *core.Func, validators map[*types.Func]bool) bool {
+	info := f.Info()
+	sig := f.Obj.Type().(*types.Signature)
+	var vcall *ast.CallExpr
+	var param types.Object
+	core.Calls(f.Decl.Body, false, func(call *ast.CallExpr) {
+		callee := core.Callee(info, call)
+		if callee == nil || !validators[callee] || len(call.Args) != 1 {
+			return
+		}
+		o := core.ObjOf(info, call.Args[0])
+		for i := 0; i < sig.Params().Len(); i++ {
+			if sig.Params().At(i) == o {
+				vcall, param = call, o
+			}
+		}
+	})
+	if vcall == nil {
+		return false
+	}
+	fl := core.NewFlow(p, info, f.Decl.Body)
+	ok := true
+	fl.Nodes(func(l core.Loc, nd ast.Node) {
+		if nd == ast.Node(vcall) || !core.Mentions(info, nd, param) {
+			return
+		}
+		contains := false
+		ast.Inspect(nd, func(y ast.Node) bool {
+			if y == ast.Node(vcall) {
+				contains = true
+			}
+			return true
+		})
+		if contains {
+			return
+		}
+		if good, _ := fl.OnlyAfterSuccess(f.Decl.Body, vcall, nd); !good {
+			ok = false
+		}
+	})
+	return ok
 }
